@@ -37,6 +37,8 @@ def run_check(repo, prop, rule, base):
     return r.returncode, r.stdout + r.stderr
 
 
+import threading
+_VARIANT_LOCK = threading.Lock()
 VARIANT = None     # --variant: apply the spelling generators to the copy before the mutant
 
 
@@ -45,7 +47,8 @@ def apply_variant(d):
     be detected on a tree that spells its tests the other way round"""
     import invert_ifs, swap_eq, swap_rel, cxx_idioms, py_swap_cmp
     import io, contextlib
-    with contextlib.redirect_stdout(io.StringIO()):
+    # (redirect_stdout is process-wide: serialise, or interleaved exits leave stdout redirected)
+    with _VARIANT_LOCK, contextlib.redirect_stdout(io.StringIO()):
         invert_ifs.main(d, 'cxx')
         swap_eq.main(d)
         swap_rel.main(d)
@@ -129,8 +132,9 @@ def main():
                                           (' on the respelt variant (%d mutants not applicable: their '
                                            'site is spelt differently there)' % len(skipped)) if VARIANT else ''))
     if VARIANT:
-        json.dump({'results': results, 'skipped': [r['id'] for r in skipped]},
-                  open(os.path.join(HERE, 'last_run_variant.json'), 'w'), indent=1)
+        if not args:
+            json.dump({'results': results, 'skipped': [r['id'] for r in skipped]},
+                      open(os.path.join(HERE, 'last_run_variant.json'), 'w'), indent=1)
         return 0 if okc == len(results) else 1
     if not args:
         json.dump({'results': results, 'clean_silent': not bad_clean},
